@@ -20,12 +20,14 @@ RULE = ("A program P and a history Q1..Qk (k = 0..6), all drawn from the C13 gen
         "1 and 12345 (ten hash seeds for the enumerated programs whose EQU definitions depend on each other). Oracle: the canonical result (outcome class, image, every listing line, every symbol line in "
         "order, origin, name, diagnostic text) is identical in all runs; the list of lines passed in equals its copy "
         "afterwards; the module tables (INSTRUCTIONS, REGISTERS, the regular expressions) hash the same before and "
-        "after. Non-trivial = k >= 1 with a rejected or crashed Q, or a fresh-process comparison; distinct by case hash.")
+        "after. Whenever a fresh process is consulted, the lines are also written to a file and given to a real assembler.py "
+        "process (--to_bin): it must accept exactly when the warm run accepts and write the same image (enumerated with "
+        "VT, FF, FS, GS, RS, NEL, U+2028, U+2029 in a comment and in a string). Non-trivial = k >= 1 with a rejected or crashed Q, or a fresh-process comparison; distinct by case hash.")
 ASSUMPTIONS = [
     "results are compared byte for byte; no reference model is involved",
     "the worker process is already warm from earlier cases: 'before the history' means 'first time in this case'",
 ]
-HEALTH = {"history_with_failure": 0.08, "fresh_process": 16}
+HEALTH = {"history_with_failure": 0.08, "fresh_process": 16, "fresh_cli": 16}
 FLAKY_IS_VIOLATION = True      # a leak changes the process: the same history run twice in one process need not fail twice
 EXHAUSTIVE = {}
 
@@ -54,6 +56,11 @@ def enumerated(tier, seed):
         for qs in ([b], [a], [c, b], [d, a, b], [a, a], [c, d]):
             yield dict(p=p, qs=qs, fresh=True)
         yield dict(p=[l[:-1] + "\r\n" for l in p], qs=[a], fresh=True)       # CR LF line ends: the list must come back untouched
+    # characters that str.splitlines treats as line ends but a text file read line by line does not, in a comment and in
+    # a string: the fresh assembler.py process must see the same lines as the warm one
+    for ch in ("\x0b", "\x0c", "\x1c", "\x1d", "\x1e", "\x85", "\u2028", "\u2029"):
+        yield dict(p=[" ORG $1000\n", "L0 LDA #1 ; page" + ch + "break\n", " BRA L0\n"], qs=[], fresh=True, hashseeds=[0], cli=True)
+        yield dict(p=[" ORG $1000\n", "L0 FCC /a" + ch + "b/\n", " BRA L0\n"], qs=[a], fresh=True, hashseeds=[0], cli=True)
     # the same list-element spellings bound to different values in different programs
     e = [" ORG $0E00\n", "E0 EQU $28\n", " NOP \n", "L0 RMB 8\n", " FDB L0+2,E0*2,0\n", " FCB E0,1,E0+1\n"]
     f = [" ORG $3000\n", "L0 FDB L0+2,E0*2,0\n", "E0 EQU $10\n", " FCB E0,1,E0+1\n"]
@@ -203,7 +210,44 @@ def _execute(case):
             if got != want:
                 return viol("fresh process with PYTHONHASHSEED={} gives {!r}, warm process gave {!r}".format(hs, _short(got), _short(want)),
                             fid="C17:fresh-process", labels=labels)
+    if case.get("cli") or case["fresh"]:
+        # the fresh process a user starts is assembler.py on a file holding these lines: same verdict, same image
+        bad = _cli_disagrees(keep, labels, bool(case.get("files")))
+        if bad:
+            return viol(bad, fid="C17:fresh-cli", labels=labels)
     return ok(labels=labels, nontrivial=bool(failures) or case["fresh"])
+
+
+def _cli_disagrees(lines, labels, copy_cwd):
+    import os
+    for l in lines:
+        body = l[:-2] if l.endswith("\r\n") else l[:-1]
+        if not l.endswith("\n") or "\n" in body or "\r" in body:
+            return None         # not the lines a text file delivers
+    warm = driver.assemble(list(lines))
+    if warm.kind not in ("OK", "DIAG") or (warm.kind == "OK" and not warm.image):
+        return None
+    with driver.TempDir() as tmp:
+        for name in (os.listdir(".") if copy_cwd else []):        # the case's included files (the cwd is its directory)
+            if name.endswith(".asm") and os.path.isfile(name):
+                with open(name, "rb") as src, open(os.path.join(tmp, name), "wb") as dst:
+                    dst.write(src.read())
+        try:
+            with open(os.path.join(tmp, "p_cli.asm"), "w", newline="") as fh:
+                fh.write("".join(lines))
+        except UnicodeEncodeError:
+            return None
+        res = driver.run_cli("assembler.py", ["p_cli.asm", "--to_bin", "o.bin"], cwd=tmp)
+        made = open(os.path.join(tmp, "o.bin"), "rb").read() if os.path.exists(os.path.join(tmp, "o.bin")) else None
+    labels.append("fresh_cli")
+    if "Traceback" in res.stderr:
+        return None             # a crash of the tool is C13's subject
+    if warm.kind == "OK" and (res.status != 0 or made != bytes(warm.image)):
+        return "warm process accepts the program ({} bytes) but a fresh assembler.py on the same lines exits {} with {!r}: {!r}".format(
+            len(warm.image), res.status, None if made is None else len(made), (res.stdout + res.stderr)[-160:])
+    if warm.kind == "DIAG" and res.status == 0:
+        return "warm process rejects the program ({}) but a fresh assembler.py on the same lines exits 0".format(warm.message)
+    return None
 
 
 def _run_history_item(q):
